@@ -319,7 +319,7 @@ def _relay(r1, r2, r3, n):
 
 def jobs(tier):
     q = tier == "quick"
-    T = 300 if q else 900
+    T = 600 if q else 900
     js = [{"name": "regexes", "fn": "regexes", "kind": "py", "params": {}, "timeout": 120}]
     for Lv in ([24] if q else [24, 40]):
         for shape in range(len(SHAPES)):
